@@ -243,7 +243,7 @@ func (f *FibStrategyHashTable) FindNextHopsEnc(name enc.Name) []*FibNextHopEntry
 	for pfx := len(entry.name); pfx >= 0; pfx-- {
 		val, ok := f.realTable[prefixHash[pfx]]
 		if ok && len(val.nexthops) > 0 {
-			return val.nexthops
+			return copyNextHops(val.nexthops)
 		}
 	}
 
@@ -343,7 +343,7 @@ func (f *FibStrategyHashTable) GetAllFIBEntries() []FibStrategyEntry {
 	entries := make([]FibStrategyEntry, 0)
 	for _, v := range f.realTable {
 		if len(v.nexthops) > 0 {
-			entries = append(entries, v)
+			entries = append(entries, v.snapshot())
 		}
 	}
 
@@ -379,7 +379,7 @@ func (f *FibStrategyHashTable) GetAllForwardingStrategies() []FibStrategyEntry {
 	entries := make([]FibStrategyEntry, 0)
 	for _, v := range f.realTable {
 		if v.strategy != nil {
-			entries = append(entries, v)
+			entries = append(entries, v.snapshot())
 		}
 	}
 
